@@ -465,6 +465,18 @@ class Ctx:
                 if x not in ALLOWED_AXIOMS and x.split(".")[-1] not in ALLOWED_AXIOMS:
                     return False, "theorem %s depends on a non-allow-listed axiom %s" % (t, x)
                 used.add(x)
+        if not self.quick:
+            # thorough tier: independent re-check of the compiled theory (and everything it depends on)
+            rc2, out2, err2 = sh(["coqchk", "-o", "-silent", "-Q", COQ, "Chalk", "Chalk." + module], timeout=3000, cwd=COQ)
+            m = re.search(r"\* Axioms:\s*(.*?)\n\s*\n", out2 + err2, re.S)
+            axs = m.group(1).strip() if m else "<unparsed>"
+            self.cov["coqchk"] = {"rc": rc2, "axioms": axs[:500]}
+            if rc2 != 0:
+                return False, "coqchk rejected %s: %s" % (module, (out2 + err2)[-800:])
+            if axs != "<none>":
+                for a in re.findall(r"([A-Za-z_][\w.']*)", axs):
+                    if a not in ALLOWED_AXIOMS and a.split(".")[-1] not in ALLOWED_AXIOMS:
+                        return False, "coqchk reports a non-allow-listed axiom %s under %s" % (a, module)
         self.cov["discharged"] += len(theorems)
         self.cov["trusted_base"] = sorted(set(self.cov["trusted_base"]) | {
             "Coq 8.16.1 kernel (coqc) incl. vm_compute; no native_compute",
